@@ -20,7 +20,7 @@ def floor(ctx):
     return encfloor.run(ctx, ID, inputs(ctx), 2 if ctx.tier == 'quick' else 8, RULE)
 
 
-RULE = ("163 hand-written special cases (stereo centres opening/closing rings in all label orders, implicit-H centres, marks on ring closures, bracket spelling variants, aromatic systems, ring/branch lengths needing 1-2 index symbols) plus a aromatic subset of the committed 3272-molecule corpus sampled from the repository's datasets; plus grammar-fuzzed SMILES (harness/smifuzz.py: bracket atoms with every field, bond symbols on ring digits, %nn labels, ring digits before and after branches, several fragments); each with N same-order respellings (ring-label policy, explicit '-', bracket variants) and N random re-traversals (atom order changed) written by spec/smiles_writer.py; encoder -> decoder (-> encoder) on the real library under a relaxed table, judged by the independent reader; non-trivial = distinct SELFIES strings produced")
+RULE = ("389 hand-written special cases (harness/encfloor.SPECIAL, grown with every seeded change that was first missed) (stereo centres opening/closing rings in all label orders, implicit-H centres, marks on ring closures, bracket spelling variants, aromatic systems, ring/branch lengths needing 1-2 index symbols) plus a aromatic subset of the committed 3272-molecule corpus sampled from the repository's datasets; plus grammar-fuzzed SMILES (harness/smifuzz.py: bracket atoms with every field, bond symbols on ring digits, %nn labels, ring digits before and after branches, several fragments); each with N same-order respellings (ring-label policy, explicit '-', bracket variants) and N random re-traversals (atom order changed) written by spec/smiles_writer.py; encoder -> decoder (-> encoder) on the real library under a relaxed table, judged by the independent reader; non-trivial = distinct SELFIES strings produced")
 
 
 def replay_input(d):
